@@ -132,12 +132,20 @@ fn one_run(run: u64, si: usize, s: &Value, kind: &str, ms: &[usize], rng: &mut i
     }
     if kind.starts_with("ss_") && has_merge && ninst > 1 && rng.random_range(0..4) == 0 {
         let mut t2 = t1;
-        match rng.random_range(0..3) {
+        let mut c2m = m;
+        match rng.random_range(0..5) {
             0 => t2.2 += 1,
             1 => t2.1 *= 1.5,
-            _ => t2.0 = 1.0 + (t1.0 - 1.0) * 0.5,
+            2 => t2.0 = 1.0 + (t1.0 - 1.0) * 0.5,
+            3 => c2m = m + 1,
+            _ => c2m = if m > 1 { m - 1 } else { m + 2 },
         }
-        classes.push(mk(t2));
+        let mut c2 = mk(t2);
+        c2.m = c2m;
+        if let Some(p) = c2.ss.as_mut() {
+            p.m = c2m as u64;
+        }
+        classes.push(c2);
         pc[ninst - 1] = 2;
     }
     // concrete items
@@ -315,7 +323,7 @@ fn one_run(run: u64, si: usize, s: &Value, kind: &str, ms: &[usize], rng: &mut i
     let tb: Vec<Vec<Vec<i64>>> = tables.iter().map(|c| c.iter().map(|t| t.iter().map(&rk).collect()).collect()).collect();
     out.line(&json!({"op": "new", "run": run, "sched": si, "cfg": classes.iter().map(|c| c.json()).collect::<Vec<_>>(), "m": m, "ninst": ninst, "pc": pc,
         "dir": if is_min(kind) {"min"} else {"max"}, "pub": public, "sig": has_sig, "raw": raw, "init": rk(&initk), "tables": tb,
-        "fullkind": full_kind, "wscale_log2": wscale.log2(), "minw": if items.is_empty() { 1.0 } else { items.iter().map(|i| i.w).fold(f64::INFINITY, f64::min) },
+        "ms": pc.iter().map(|c| classes[*c - 1].m).collect::<Vec<usize>>(), "fullkind": full_kind, "wscale_log2": wscale.log2(), "minw": if items.is_empty() { 1.0 } else { items.iter().map(|i| i.w).fold(f64::INFINITY, f64::min) },
         "items": items.iter().map(|i| json!([i.id.to_string(), i.w])).collect::<Vec<_>>()}));
     for e in evs {
         let mut v = e.v;
